@@ -7,6 +7,9 @@ pub mod util;
 /// re-exports used by the instantiation crates
 pub mod re {
     pub use aes;
+    pub use cfb_mode;
+    pub use ctr;
+    pub use cts;
     pub use belt_block;
     pub use cipher;
     pub use kuznyechik;
